@@ -383,7 +383,7 @@ func TestC17(t *testing.T) {
 	if lib.Thorough() {
 		maxSub = 4
 	}
-	rep.Rule = fmt.Sprintf("trees = all subsets of <=%d of %v, sizes {3L,0,L+1,1,L} rotated, L=64; both mount modes (streamed with prefetch 0/1, with and without hash verification; pre-downloaded) built with the real NewReadOnlyFS and driven through fuseutil.FileSystem; per mount the COMPLETE battery: LookUpInode of every (directory, child or absent name), GetInodeAttributes of every inode, OpenDir, ReadDir from every offset, ReadDir with the kernel resume protocol at every buffer size, ReadFile at every offset 0..size+L+1 x 4 lengths; distinct = distinct (tree, mode)", maxSub, c17paths)
+	rep.Rule = fmt.Sprintf("trees = all subsets of <=%d of %v, sizes {3L,0,L+1,1,L} rotated, L=64; both mount modes (streamed with prefetch 0/1, with and without hash verification; pre-downloaded) built with the real NewReadOnlyFS and driven through fuseutil.FileSystem; per mount the COMPLETE battery: LookUpInode of every (directory, child or absent name), GetInodeAttributes of every inode, OpenDir, ReadDir from every offset, ReadDir with the kernel resume protocol at every buffer size, ReadFile at every offset 0..size+L+1 x 4 lengths; plus a 96 KiB leaf size (larger than the copy buffers of the download path) x {2 leaves + 5 bytes, exactly one leaf} x streamed / pre-downloaded x hash verification on / off (mount and bundle): reads at the copy-buffer and leaf boundaries; distinct = distinct (tree, mode)", maxSub, c17paths)
 	var cases []c17case
 	n := len(c17paths)
 	for mask := 0; mask < 1<<uint(n); mask++ {
@@ -440,6 +440,77 @@ func TestC17(t *testing.T) {
 		}(c)
 	}
 	wg.Wait()
+	if atomic.LoadInt64(&c17hangs) == 0 {
+		c17bigLeaf(rep)
+	}
 	rep.Set("mounts", len(cases))
 	rep.Sample(map[string]interface{}{"case": cases[len(cases)/2]})
+}
+
+// c17bigLeaf: leaves larger than the copy buffers of the download path (96 KiB: three 32 KiB copies per leaf), files of
+// 2 leaves + 5 bytes and of exactly one leaf, streamed and pre-downloaded mounts, hash verification on and off (on the
+// mount and on the bundle the mount downloads from); reads at the copy-buffer and leaf boundaries.
+func c17bigLeaf(rep *lib.Report) {
+	const L = 96 * 1024
+	files := map[string][]byte{"big": pattern("pos", 2*L+5, L), "one": pattern("pos", L, L)}
+	ctx := context.Background()
+	for _, streamed := range []bool{false, true} {
+		for _, verify := range []bool{false, true} {
+			mode := map[bool]string{true: "streamed", false: "pre-downloaded"}[streamed] + map[bool]string{true: "+verify-hash", false: ""}[verify]
+			rp := map[string]interface{}{"leaf_size": L, "mode": mode}
+			guard(rep, "C17|big-leaf|"+mode, func() string { return mode }, rp, func() {
+				w := NewWorld()
+				w.Blob.NoJournal = true
+				st := w.Stores()
+				_ = mkRepo(st, "r")
+				b, err := uploadFiles(st, "r", files, L, 0)
+				if err != nil {
+					panic(err)
+				}
+				dir, err := os.MkdirTemp(c16scratchBase(), "verif-c17-")
+				if err != nil {
+					panic(err)
+				}
+				defer os.RemoveAll(dir)
+				cons := localfs.New(afero.NewBasePathFs(afero.NewOsFs(), dir), localfs.WithRetry(false), localfs.WithLogger(nopLogger))
+				bd := core.NewBundle(core.Repo("r"), core.ContextStores(st), core.ConsumableStore(cons), core.BundleID(b.BundleID), core.Logger(nopLogger), core.BundleWithVerifyHash(verify))
+				ro, err := dfuse.NewReadOnlyFS(bd, dfuse.Logger(nopLogger), dfuse.Streaming(streamed), dfuse.Prefetch(0), dfuse.CacheSize(8*L), dfuse.VerifyHash(verify))
+				if err != nil {
+					rep.Violate("C17|big-leaf|mount-error|"+mode, err.Error(), rp)
+					return
+				}
+				fs := ro.VerifFS()
+				for name, data := range files {
+					lk := &fuseops.LookUpInodeOp{Parent: fuseops.RootInodeID, Name: name}
+					if err := fs.LookUpInode(ctx, lk); err != nil {
+						rep.Violate("C17|big-leaf|lookup-error|"+mode, name+": "+err.Error(), rp)
+						continue
+					}
+					n := len(data)
+					for _, off := range []int{0, 1, 32*1024 - 1, 32 * 1024, 64 * 1024, 64*1024 + 1, L - 1, L, L + 32*1024, 2*L - 1, 2 * L, 2*L + 4} {
+						for _, l := range []int{1, 4096, 40000, L, n} {
+							if off >= n {
+								continue
+							}
+							op := &fuseops.ReadFileOp{Inode: lk.Entry.Child, Offset: int64(off), Dst: make([]byte, l)}
+							err := fs.ReadFile(ctx, op)
+							rep.Eval(1)
+							end := off + l
+							if end > n {
+								end = n
+							}
+							if err != nil {
+								rep.Violate("C17|big-leaf|readfile-error|"+mode, fmt.Sprintf("%q (size %d, leaf %d) off=%d len=%d: %v", name, n, L, off, l, err), rp)
+								return
+							}
+							if op.BytesRead != end-off || !bytes.Equal(op.Dst[:op.BytesRead], data[off:end]) {
+								rep.Violate("C17|big-leaf|readfile-bytes|"+mode, fmt.Sprintf("%q (size %d, leaf %d) off=%d len=%d: got %d bytes, want %d, or other bytes", name, n, L, off, l, op.BytesRead, end-off), rp)
+								return
+							}
+						}
+					}
+				}
+			})
+		}
+	}
 }
